@@ -431,7 +431,7 @@ def run(sc, tape):
         if s['fired']:
             k = 'interrupt_' + s['fired'].split(':')[0] + ('_hard_kill' if s['interrupt'] and s['interrupt']['hard'] else '_exception')
             faults[k] = faults.get(k, 0) + 1
-    return {'violation': v, 'digest': C.digest_of(sc), 'nontrivial': bool(info.get('skipped')), 'steps': probes.get('handed', 0),
+    return {'violation': v, 'digest': C.digest_of(sc, w.fs.op_count, round(clock.now, 6), len(handed), info.get('segments')), 'nontrivial': bool(info.get('skipped')), 'steps': probes.get('handed', 0),
             'sim_time': clock.now - 1.7e9, 'faults': faults, 'probes': probes, 'unspecified': info.get('unspecified', 0),
             'sample': {'grid': sc['gk'], 'levels': sc['levels'], 'coverage': sc['coverage'], 'meta': sc['meta_size'],
                        'handed_uninterrupted': probes.get('handed'),
